@@ -1,9 +1,9 @@
 SPECIFICATION Spec
 CONSTANTS
   W = 4
-  N = 5
-  Leads = {0, 1, 8, 100}
-  Signs = {0, 3, 60}
-  Amounts_ = {149, 150, 1000000}
+  N = 4
+  Leads = {0, 1, 9, 100}
+  Signs = {0, 2, 50}
+  Amounts_ = {119, 120, 1000000}
 INVARIANT Inv
 CHECK_DEADLOCK FALSE
